@@ -221,7 +221,7 @@ func denyExec(fn *ssa.Function) bool {
 	case "fmt", "os", "syscall", "runtime", "reflect", "log", "sync", "sync/atomic", "time", "math/big",
 		"crypto/hmac", "crypto/sha256", "crypto/sha1", "crypto/md5", "crypto/rand", "hash/crc32", "context",
 		"crypto/tls", "strconv", "unicode/utf8", "internal/bytealg", "math/rand", "encoding/hex", "encoding/base64",
-		"github.com/pion/logging", "github.com/pion/randutil", "crypto/subtle", "sort", "slices", "bufio", "net/netip":
+		"github.com/pion/logging", "github.com/pion/randutil", "crypto/subtle", "sort", "slices", "bufio":
 		return true
 	}
 	if p == "net" {
@@ -238,6 +238,9 @@ func denyExec(fn *ssa.Function) bool {
 	}
 	if p == "strings" || p == "bytes" {
 		return true
+	}
+	if p == "net/netip" {
+		return fn.Name() != "AddrPortFrom" // plain struct construction; everything else needs a stub
 	}
 	if p == "io" {
 		switch fn.Name() {
